@@ -45,8 +45,13 @@ META = {
         "a zlib stream labelled gzip, a raw deflate stream and a gzip stream labelled deflate",
         "the reference decoders are the library entry points gzip.decompress / zlib.decompress (zlib or raw deflate) / "
         "brotli.decompress / zstd.decompress; the compression libraries themselves are trusted",
-        "for input the reference rejects, for an empty raw body and for unknown codings the statement fixes no result: only "
-        "history independence (and Content-Length) is judged there; multi-member gzip and trailing garbage are outside the alphabet",
+        "for *input* the reference rejects (incl. zero bytes under deflate/br/zstd) and for unknown codings the statement fixes "
+        "no result: only history independence (and Content-Length) is judged there; multi-member gzip and trailing garbage are "
+        "outside the alphabet",
+        "encoded *output* for empty content is judged like any other: a fresh encode yields a real stream for gzip, deflate, br "
+        "and zstd on the unchanged tree. Zero bytes are accepted as the encoding of empty content in one situation only, the one "
+        "in which the unchanged tree emits them (all four codings): an empty raw body was decoded before, the cache holds "
+        "(b'', coding) -> b'' and the operation's encode call hits that entry (counted as guard_zero_bytes_... in the evidence)",
         "byte identity of encoded output across histories is not required (the cache may hand back the original encoded "
         "form); encoded results are compared by what the reference decodes them to",
         "message 1 carries Transfer-Encoding: chunked, so Content-Length is judged on message 0 only",
@@ -111,15 +116,14 @@ class Undefined(Exception):
 
 def ref_decode(raw: bytes, coding):
     """stateless reference: content of `raw` under `coding`.
-    Raises Undefined where the statement fixes nothing (unknown coding, empty raw body under a
-    compression coding), Reject when the independent decoder refuses the input."""
+    Raises Undefined where the statement fixes nothing (unknown coding), Reject when the independent decoder
+    refuses the input.  Zero bytes get no special treatment: gzip.decompress reads them as empty content,
+    zlib / brotli / zstd refuse them."""
     c = (coding or "identity").lower()
     if c in ("identity", "none"):
         return raw
     if c not in SUPPORTED:
         raise Undefined("unknown coding")
-    if raw == b"":
-        raise Undefined("empty raw body")
     ok, val = _ref_decompress(raw, c)
     if not ok:
         raise Reject(val)
@@ -145,16 +149,34 @@ def _ref_decompress(raw: bytes, c: str):
 
 
 def sem(raw, coding):
-    """what an encoded value means: the content the reference reads from it, or the bytes themselves"""
+    """what an encoded value means when two histories are compared: the content the reference reads from it, or
+    the bytes themselves.  (Only here zero bytes under a compression coding count as empty content: whether zero
+    bytes may be *produced* is decided by the output clauses through strict_content, not by history comparison.)"""
+    if raw is None:
+        return ["none"]
+    if raw == b"" and (coding or "").lower() in SUPPORTED:
+        return ["content", b""]
+    try:
+        return ["content", ref_decode(raw, coding)]
+    except (Undefined, Reject):
+        return ["raw", raw]
+
+
+def strict_content(raw, coding, zero_bytes_from_cache, t=None):
+    """content of an encoded value *produced* by mitmproxy, by the independent decoder.
+    Guard (DESIGN: "an empty raw body is accepted as the encoding of empty content"), kept only where the unchanged
+    tree itself emits zero bytes: an empty raw body was decoded before - any of gzip/deflate/br/zstd - so the cache
+    holds (b"", coding) -> b"" and the encode call of this operation hits that entry and hands the zero bytes back.
+    A fresh encode of empty content yields a real stream for every coding and is judged as such."""
     if raw is None:
         return ["none"]
     try:
         return ["content", ref_decode(raw, coding)]
-    except Undefined:
-        if raw == b"" and (coding or "").lower() in SUPPORTED:
-            return ["content", b""]  # an empty raw body is accepted as the encoding of empty content
-        return ["raw", raw]
-    except Reject:
+    except (Undefined, Reject):
+        if raw == b"" and zero_bytes_from_cache and (coding or "").lower() in SUPPORTED:
+            if t is not None:
+                t.add("guard_zero_bytes_handed_back_from_empty_raw_cache_entry")
+            return ["content", b""]
         return ["raw", raw]
 
 
@@ -423,6 +445,8 @@ def cache_features(cache, a, msgs):
     """how the cache entry in front of the operation relates to it (trigger class of a case)"""
     if cache == EMPTY_CACHE:
         entry = "empty"
+    elif cache[0] == b"" and cache[3] == b"":
+        entry = "empty-raw"  # (b"", coding) -> b"": an empty raw body was read as empty content
     else:
         try:
             entry = "canonical" if ref_decode(cache[0], cache[1]) == cache[3] else "divergent"
@@ -450,6 +474,8 @@ def cache_features(cache, a, msgs):
         if raw is not None and ce and ce.lower() in SUPPORTED:
             # the read decodes (raw, ce) and leaves that pair in the cache; the assignment's encode call then finds
             # it: the entry that matters is the one the operation makes itself
+            if raw == b"":
+                return "empty-raw", True, "decode"
             try:
                 ref_decode(raw, ce)
                 entry = "canonical"
@@ -522,6 +548,8 @@ def judge_step(a, pre_cache, pre_msgs, out, post_cache, post_msgs, case, t: Tall
         t.add("op_raised_%s" % out["exc"])
     lc = (coding or "identity").lower()
     supported = lc in SUPPORTED or lc in ("identity", "none")
+    # the only situation in which zero bytes are accepted as the encoding of empty content (see strict_content)
+    zb = entry == "empty-raw" and hit
 
     def J(clause, cond, exp=None, obs=None):
         t.judge(clause, cond, feats, case, exp, obs)
@@ -537,12 +565,7 @@ def judge_step(a, pre_cache, pre_msgs, out, post_cache, post_msgs, case, t: Tall
     if op == "enc" and supported:
         b = BODIES[a[1]]
         res = out["result"]
-        try:
-            ok = out["exc"] is None and isinstance(res, bytes) and (ref_decode(res, coding) == b)
-        except Undefined:
-            ok = b == b""  # empty output for empty input
-        except Reject as e:
-            ok = False
+        ok = out["exc"] is None and isinstance(res, bytes) and strict_content(res, coding, zb, t) == ["content", b]
         J("encode_output_decodes_to_input", ok, b, {"exc": out["exc"], "encoded": res})
     elif op == "dec" and supported:
         x = INPUTS[a[1]]
@@ -560,16 +583,8 @@ def judge_step(a, pre_cache, pre_msgs, out, post_cache, post_msgs, case, t: Tall
         if supported:
             J("assign_then_read_same_bytes", out["exc"] is None and out["result"] == b, b, out)
             ce_after = hdr(fields, b"content-encoding")
-            try:
-                J("raw_decodes_independently", raw is not None and ref_decode(raw, ce_after) == b, b,
-                  {"raw": raw, "content_encoding": ce_after})
-            except Undefined:
-                if raw == b"" and b == b"":
-                    t.ok("raw_decodes_independently")
-                else:
-                    J("raw_decodes_independently", False, b, {"raw": raw, "content_encoding": ce_after})
-            except Reject as e:
-                J("raw_decodes_independently", False, b, {"raw": raw, "content_encoding": ce_after, "reference": str(e)})
+            J("raw_decodes_independently", strict_content(raw, ce_after, zb, t) == ["content", b], b,
+              {"raw": raw, "content_encoding": ce_after})
     elif op == "get":
         i = a[1]
         raw, fields = pre_msgs[i]
@@ -588,7 +603,7 @@ def judge_step(a, pre_cache, pre_msgs, out, post_cache, post_msgs, case, t: Tall
             c = out["read"]
             raw2, fields2 = post_msgs[i]
             J("assign_then_read_same_bytes", out["result"] == c, c, out)
-            J("raw_decodes_independently", sem(raw2, hdr(fields2, b"content-encoding")) == ["content", c], c,
+            J("raw_decodes_independently", strict_content(raw2, hdr(fields2, b"content-encoding"), zb, t) == ["content", c], c,
               {"raw": raw2, "content_encoding": hdr(fields2, b"content-encoding")})
     elif op == "decode":
         i = a[1]
@@ -600,7 +615,8 @@ def judge_step(a, pre_cache, pre_msgs, out, post_cache, post_msgs, case, t: Tall
                 want = None
             if want is not None:
                 raw2, fields2 = post_msgs[i]
-                J("decode_preserves_content", out["exc"] is None and sem(raw2, hdr(fields2, b"content-encoding")) == ["content", want],
+                J("decode_preserves_content",
+                  out["exc"] is None and strict_content(raw2, hdr(fields2, b"content-encoding"), False) == ["content", want],
                   want, {"exc": out["exc"], "raw": raw2, "content_encoding": hdr(fields2, b"content-encoding")})
     elif op == "encode":
         i = a[1]
@@ -609,7 +625,7 @@ def judge_step(a, pre_cache, pre_msgs, out, post_cache, post_msgs, case, t: Tall
             # a decoded message: its content is its raw body; re-encoding must preserve it
             raw2, fields2 = post_msgs[i]
             J("decode_then_encode_preserves_content",
-              out["exc"] is None and sem(raw2, hdr(fields2, b"content-encoding")) == ["content", raw],
+              out["exc"] is None and strict_content(raw2, hdr(fields2, b"content-encoding"), zb, t) == ["content", raw],
               raw, {"exc": out["exc"], "raw": raw2, "content_encoding": hdr(fields2, b"content-encoding")})
     # --- Content-Length ----------------------------------------------------------
     # judged after every operation that assigns a body through mitmproxy and completes (the body or the header may
